@@ -81,20 +81,27 @@ def get_broadcast_change_iter(modified_settings, is_cancel=False):
                                    key=lambda x: (x[0], x[1])):
         # sorted by (point, namespace)
         point, namespace, setting = modified_setting
-        value = setting
-        keys_str = ""
-        while isinstance(value, dict):
-            key, value = next(iter(value.items()))
-            if isinstance(value, dict):
-                keys_str += "[" + key + "]"
-            else:
-                keys_str += key
-                yield {
-                    "change": change,
-                    "point": point,
-                    "namespace": namespace,
-                    "key": keys_str,
-                    "value": str(value)}
+        for keys_str, value in _iter_setting_items(setting):
+            yield {
+                "change": change,
+                "point": point,
+                "namespace": namespace,
+                "key": keys_str,
+                "value": str(value)}
+
+
+def _iter_setting_items(setting, keys_str=""):
+    """Yield (key string, value) for every item of a (nested) setting.
+
+    A setting may hold several keys at any level (e.g. if submitted via
+    the API): {"environment": {"A": "1", "B": "2"}, "script": "true"}
+    yields [environment]A, [environment]B and script.
+    """
+    for key, value in setting.items():
+        if isinstance(value, dict):
+            yield from _iter_setting_items(value, keys_str + "[" + key + "]")
+        else:
+            yield keys_str + key, value
 
 
 def get_broadcast_change_report(modified_settings, is_cancel=False):
